@@ -1125,7 +1125,12 @@ impl Gc {
 
             // Garbage is normally only collected when `collect_limit` is reached but that may be
             // above the memory limit: collect before an allocation is refused because of garbage
-            if self.allocated_memory.saturating_add(def.size()) >= self.memory_limit {
+            if self
+                .allocated_memory
+                .saturating_add(GcHeader::value_offset())
+                .saturating_add(def.size())
+                >= self.memory_limit
+            {
                 self.collect_limit = self.collect_limit.min(self.allocated_memory);
             }
             self.check_collect(Scope1(roots, &def));
@@ -1148,7 +1153,11 @@ impl Gc {
         D::Value: Sized + Any,
     {
         let size = def.size();
-        let needed = self.allocated_memory.saturating_add(size);
+        // The header of the allocation is accounted for as well (see `AllocPtr::size`)
+        let needed = self
+            .allocated_memory
+            .saturating_add(GcHeader::value_offset())
+            .saturating_add(size);
         if needed >= self.memory_limit {
             return Err(Error::OutOfMemory {
                 limit: self.memory_limit,
